@@ -16,6 +16,7 @@ mutated; the helpers impose_measure applies keep their references.
 Round 5 (hunt): scenario.update stores all given values (repair d40c5ba); the
 default weights are taken only for `weights is None` / empty (repair 1a6156e);
 _flat flattens array slices (repair 11b6398).
+Review of the repairs: scenario decides 'no values' by len() first, by truth value only for objects without a length (C19.j resolves the local flag).
 NOT decided: round-trip equality of values, Cartesian order of _pack, update
 on ragged input.
 """
@@ -341,7 +342,21 @@ def given_weights_are_never_replaced_by_the_default(ctx):
                 if isinstance(e, ast.BoolOp):
                     # `weights is None or not len(weights)`: after an `is None` alternative the rest may only use len()
                     return any(truthiness(v) for v in e.values)
+                if isinstance(e, ast.Name) and e.id != PN and e.id in local:
+                    # a local flag (`empty`): what it was computed from; a truth test of the parameter is the fallback for objects WITHOUT a
+                    # length only when it sits in the `except TypeError` handler of a try whose body asks len(<parameter>) first
+                    return any(truthiness(v) for v, fallback in local[e.id] if not fallback)
                 return isinstance(e, ast.Name) and e.id == PN
+            local = {}
+            for a_ in stmts_of(f.node):
+                if isinstance(a_, ast.Assign) and len(a_.targets) == 1 and isinstance(a_.targets[0], ast.Name) and a_.targets[0].id not in f.args():
+                    fb = False
+                    h_ = parent(a_)
+                    if isinstance(h_, ast.ExceptHandler) and h_.type is not None and 'TypeError' in unparse(h_.type):
+                        tr = parent(h_)
+                        fb = isinstance(tr, ast.Try) and any(isinstance(c, ast.Call) and isinstance(c.func, ast.Name) and c.func.id == 'len' and c.args and isinstance(c.args[0], ast.Name) and c.args[0].id == PN
+                                                             for b_ in tr.body for c in ast.walk(b_))
+                    local.setdefault(a_.targets[0].id, []).append((a_.value, fb))
             ctx.check(not truthiness(st.test), '%s#default' % f.qualname, 'uniform weights only when weights is None / empty (%s)' % ' '.join(unparse(st.test).split()),
                       '%s decides "no weights given" by the truth value of the weights (%s): a single zero weight given as an array is replaced by a uniform weight, a larger array raises'
                       % (f.qualname, ' '.join(unparse(st.test).split())), f, st)
